@@ -1716,6 +1716,9 @@ class Tensor:
         # In Tensor._op, any tensor entering an op has its grad/view-info cleared
         # We must do this here up front since we need to consume information
         # about ``self``
+        # remember the state that is consumed up front so that a failed
+        # in-place operation can leave `self` exactly as it found it
+        _prior_state = (self._grad, self._view_grad, self._base)
         self.null_grad(_clear_view_info=True)
         if self._base is not None and not self._base._view_children:
             self._base = None
@@ -1770,6 +1773,7 @@ class Tensor:
                 )
         except Exception as e:
             graph.restore_old_graph()
+            self._grad, self._view_grad, self._base = _prior_state
             raise e
 
         placeholder_mutant_view._constant = inplace_target._constant
